@@ -635,22 +635,26 @@ impl FrameChecker {
     }
 }
 
-/// Which property a frame violation is attributed to, given the check that is running.
+/// Which properties a frame violation is attributed to.
 /// Fault-free histories: F1->C05, F2->C06, F4->C19, F3->C07. Histories with injected failures: F1/F2/F3
-/// at or after the first failure -> C07 (F4 is not C07's business).
-pub fn attribute(v: &FrameViolation) -> Option<&'static str> {
+/// at or after the first failure -> C07 (F4 is not C07's business); "flush returned Ok but data is left" and
+/// "lost at a drop whose own write did not fail" also -> C06, whose statement does not depend on earlier failures.
+pub fn attribute(v: &FrameViolation) -> Vec<&'static str> {
     if v.after_fault {
-        match v.rule {
-            "F1" | "F2" | "F3" => Some("C07"),
-            _ => None,
+        match (v.rule, v.class) {
+            // C06 is unconditional about this: a flush that returns Ok leaves nothing buffered, a dropped sink has
+            // written what it accepted unless the drop's own write failed - whatever failed earlier
+            ("F2", "flush-left-data") | ("F2", "lost-at-drop") => vec!["C07", "C06"],
+            ("F1", _) | ("F2", _) | ("F3", _) => vec!["C07"],
+            _ => vec![],
         }
     } else {
         match v.rule {
-            "F1" => Some("C05"),
-            "F2" => Some("C06"),
-            "F3" => Some("C07"),
-            "F4" => Some("C19"),
-            _ => None,
+            "F1" => vec!["C05"],
+            "F2" => vec!["C06"],
+            "F3" => vec!["C07"],
+            "F4" => vec!["C19"],
+            _ => vec![],
         }
     }
 }
